@@ -106,6 +106,7 @@ fn main() {
         "fdframes" => fd::fdframes(rest),
         "fdexec" => fd::fdexec(rest),
         "fdrand" => fd::fdrand(rest),
+        "fdtrace" => fd::fdtrace(rest),
         "mfitems" => fd::mfitems(rest),
         "mfexec" => fd::mfexec(rest),
         "truncsweep" => fd::truncsweep(rest),
